@@ -5,7 +5,8 @@ import warnings
 
 ID = 'C13'
 LEVEL = 'other'
-TARGETS = []
+TARGETS = ['selfies/decoder.py::_tokenize_selfies',
+           'selfies/utils/selfies_utils.py::split_selfies']
 EXPLANATION = (
     "BOUNDED stand-in (runtime property contract on the public decoder): for every string of up to N tokens over "
     "covering symbol sets (atoms, branch and ring symbols followed by index symbols, dots, out-of-grammar symbols) "
